@@ -85,7 +85,7 @@ def run_rules(R, ts):
     if inv:
         later = RU.dead_after(f, inv[0], "task")
         R.check(not later, "DETACH-FIRST", "task-dead-after-invoke", where(f, inv[0]), "task not touched after its function ran", "task used after its function ran (it may have been freed) at lines %s" % [x.line for x in later][:3])
-        a = [f.show(x) for x in inv[0].node["a"]]
+        a = [f.show(x, alias=True) for x in inv[0].node["a"]]
         R.check(a == ["task", "task->arg", "status"], "DETACH-FIRST", "invoke-args", where(f, inv[0]), "fn(task, task->arg, status)")
         ts_ = Typestate(f, 0, lambda e, s: min(s + 1, 2) if e is inv[0] else s)
         R.check(ts_.exit_states == {1}, "DETACH-FIRST", "invoked-exactly-once", "%s()" % f.name, "exactly one invocation on every path")
@@ -294,7 +294,13 @@ def schedule_rules(R, ts):
                     fake = type("E", (), {"blk": b.id, "idx": 0, "seq": 0})()
                     for c, p, bb in RU.guards(f, fake, dom):
                         g = RU.cmp_norm(f, c, p)
-                        if g and g[2] is not None and g[1] == ">" and f.show(RU.uncast(f, g[2])) == "time_to_run" and "timestamp" in f.show(g[0]):
+                        if not g or g[2] is None:
+                            continue
+                        tp, tt = f.params[1]["n"], f.params[2]["n"]
+                        # the new task's time: the parameter, or the task's own timestamp field (which was set from it)
+                        own = lambda n_: f.show(RU.uncast(f, n_)) in (tt, tp + "->timestamp")
+                        other = lambda n_: "timestamp" in f.show(n_) and not own(n_)
+                        if (g[1] == ">" and own(g[2]) and other(g[0])) or (g[1] == "<" and own(g[0]) and other(g[2])):
                             okb = True
             R.check(okb, "SCHEDULE", "future:fallback-stops-at-strictly-later", "%s()" % name, "sorted insertion stops at the first task strictly later (equal times stay FIFO)",
                     "the fallback sorted insertion does not stop at the first strictly later task")
@@ -369,10 +375,10 @@ def has_tasks_rules(R, ts, batch=True):
     for b in f.blocks.values():
         for el in b.elems:
             if el["k"] == "bin" and el["op"] in ("<", "<="):
-                if "timestamp" in f.show(el["a"][0]) and f.show(RU.uncast(f, el["a"][1])) == "timestamp":
+                if "->timestamp" in f.show(el["a"][0], alias=True) and f.show(RU.uncast(f, el["a"][1])) == "timestamp":
                     mins.append(el)
             if el["k"] == "bin" and el["op"] in (">", ">="):
-                if "timestamp" in f.show(el["a"][1]) and f.show(RU.uncast(f, el["a"][0])) == "timestamp":
+                if "->timestamp" in f.show(el["a"][1], alias=True) and f.show(RU.uncast(f, el["a"][0])) == "timestamp":
                     mins.append(el)
     # ... or the same minimum taken through the library's min helper
     for b in f.blocks.values():
@@ -432,7 +438,12 @@ def comparator(R, ts):
                     ok = ok and init is not None and "timestamp" in f.show(init) and not any(y["k"] == "bin" for y in f.walk(init, follow_refs=True))
                 elif not (x["k"] == "member" and x["f"] == "timestamp"):
                     ok = False
-            ok = ok and v["op"] == ">" and f.show(v["a"][0]).startswith("a") and f.show(v["a"][1]).startswith("b")
+            import re as _re
+            pa, pb = f.params[0]["n"], f.params[1]["n"]
+            tl = set(_re.findall(r"[A-Za-z_]\w*", f.show(v["a"][0], alias=True)))
+            tr_ = set(_re.findall(r"[A-Za-z_]\w*", f.show(v["a"][1], alias=True)))
+            # the left operand comes from the first element, the right one from the second (through whatever temporaries)
+            ok = ok and ((v["op"] == ">" and pa in tl and pb not in tl and pb in tr_ and pa not in tr_) or (v["op"] == "<" and pb in tl and pa not in tl and pa in tr_ and pb not in tr_))
         R.check(ok, "COMPARATOR", "plain-timestamp-comparison", where(f, r), "min-heap comparator returns a_time > b_time on the stored timestamps",
                 "the heap comparator is %s: not a total order on 64-bit timestamps (tasks more than 2^63 apart are mis-ordered)" % f.show(r.node["a"][0]))
 
